@@ -342,8 +342,8 @@ impl Driver {
                         // ... and one that is still there may not have moved backwards
                         let regressed: Vec<(String, u64, u64)> = self.model.queues.iter().filter_map(|(n, mq)| {
                             let h = *self.hw.get(&(n.clone(), mq.incarnation))?;
-                            let next = obs.queues.get(n)?.last_position.map(|p| p + 1).unwrap_or(0);
-                            if next <= h { Some((n.clone(), h, next)) } else { None }
+                            let next = obs.queues.get(n)?.last_position.map(|p| p.saturating_add(1)).unwrap_or(0);
+                            if next < h.saturating_add(1) { Some((n.clone(), h, next)) } else { None }
                         }).collect();
                         if let Some((n, h, next)) = regressed.first() {
                             self.fail("C04", "next-regressed-after-restart", format!("after {} a queue (name {} B) that had handed out positions up to {} has next position {}: positions would be handed out again", op.short(), n.len(), h, next));
@@ -412,7 +412,7 @@ impl Driver {
                 self.fail("C12", "batch-torn-after-clean-restart", format!("after {}: {msg}", op.short()));
             }
         }
-        self.seen_next = obs.queues.iter().map(|(n, q)| (n.clone(), q.last_position.map(|p| p + 1).unwrap_or(0))).collect();
+        self.seen_next = obs.queues.iter().map(|(n, q)| (n.clone(), q.last_position.map(|p| p.saturating_add(1)).unwrap_or(0))).collect();
     }
 
     // ---------------------------------------------------------------- C05 range probes
@@ -439,7 +439,7 @@ impl Driver {
             let recs: &Vec<Rec> = &obs.queues[&qn].recs;
             let mut cands: Vec<u64> = vec![0, u64::MAX, 1];
             if let (Some(f), Some(l)) = (recs.first(), recs.last()) {
-                cands.extend([f.pos.saturating_sub(1), f.pos, f.pos + 1, l.pos.saturating_sub(1), l.pos, l.pos + 1, f.pos / 2 + l.pos / 2]);
+                cands.extend([f.pos.saturating_sub(1), f.pos, f.pos.saturating_add(1), l.pos.saturating_sub(1), l.pos, l.pos.saturating_add(1), f.pos / 2 + l.pos / 2]);
             }
             let a = *rng.pick(&cands);
             let b = *rng.pick(&cands);
@@ -668,7 +668,7 @@ impl Driver {
                 let Some(mq) = self.model.queues.get(&name) else { return };
                 let key = (name.clone(), mq.incarnation);
                 let n = lens.len() as u64;
-                let first = last + 1 - n.min(last + 1);
+                let first = last.saturating_add(1) - n.min(last.saturating_add(1));
                 if let Some(&h) = self.hw.get(&key) {
                     if first <= h {
                         self.fail("C04", "position-reused", format!("append on {} was assigned positions {}..={} but position {} had already been appended or truncated-to", op.short(), first, last, h));
@@ -685,7 +685,7 @@ impl Driver {
                     let key = (name, mq.incarnation);
                     let h = self.hw.get(&key).copied();
                     self.hw.insert(key, h.map(|h| h.max(*upto)).unwrap_or(*upto));
-                    if mq.recs.is_empty() && mq.next == upto + 1 {
+                    if mq.recs.is_empty() && Some(mq.next) == upto.checked_add(1) {
                         self.probes.future_truncate += 1;
                     }
                 }
